@@ -19,7 +19,7 @@ import ast
 import re
 
 from sa.engine.cfg import CFG
-from sa.engine.guards import unguarded_path
+from sa.engine.guards import inline_predicates, unguarded_path
 from sa.engine.index import AnalysisError, last_attr, norm, own_nodes, parent, qualname
 
 PP = "pynguin.ga.postprocess"
@@ -81,10 +81,21 @@ def sticky_flag_check(ctx, rule, fn, flag: str, inner_loop_pred):
     return n_ok
 
 
+_RW: dict = {}
+
+
+def _rewriter(repo):
+    if id(repo) not in _RW:
+        pmod = repo.module(PP)
+        _RW.clear()
+        _RW[id(repo)] = inline_predicates(lambda name: next((f for f in pmod.tree.body if isinstance(f, ast.FunctionDef) and f.name == name), None))
+    return _RW[id(repo)]
+
+
 def check(ctx) -> None:
     repo = ctx.repo
     ctx.rule("C22.guard", "GUARD-DOM + dataflow: every removal applied to the original is in the true branch of all(map(isclose, A, B)); A computed before the loops from the original, B from a clone on which the same removal (same index) was applied", floor=12)
-    ctx.rule("C22.protected", "every statement-level coverage-guarded remover skips statements whose bound variable is in get_assertion_protected_variables(test case) and statements that have assertions attached", floor=6)
+    ctx.rule("C22.protected", "every statement-level coverage-guarded remover skips statements whose bound variable is in get_assertion_protected_variables(test case), statements that have assertions attached and statements that use a protected variable (guards inside predicate helpers are inlined)", floor=9)
     ctx.rule("C22.closure", "the backward closure of the protected set iterates to a fixed point: the change flag is only ever raised inside a scan, reset only at the start of a pass", floor=3)
     ctx.rule("C22.stale", "an in-place change of a test case that stays inside a suite/chromosome is followed, before the next coverage computation, by invalidation of its chromosome (fresh TestCaseChromosome / remove_last_execution_result / changed=True)", floor=3)
     ctx.rule("C22.asserted", "ABSINT: _directly_asserted_variables returns the root variable of the source of every reference assertion of every statement (bound or not), and no exception assertion", floor=3)
@@ -177,7 +188,8 @@ def check(ctx) -> None:
                     _k, e, pol = lit
                     return pol and isinstance(e, ast.Compare) and isinstance(e.ops[0], ast.NotIn) and norm(e.comparators[0]) in prot_names and norm(e.left).endswith(".bound_variable")
 
-                p = unguarded_path(cfg, targets, not_protected) if prot_names else [cfg.entry]
+                rw = _rewriter(repo)
+                p = unguarded_path(cfg, targets, not_protected, rewrite=rw) if prot_names else [cfg.entry]
                 ctx.paths += 1
                 ok = p is None
                 if ok:
@@ -188,7 +200,7 @@ def check(ctx) -> None:
                     ok = all(norm(n.value.args[0]) == recv for n in pd)
                     tests = [n for n in own_nodes(fn) if isinstance(n, ast.If) and any(nm in norm(n.test) for nm in prot_names)]
                     for t in tests:
-                        cmp_ = next((x for x in ast.walk(t.test) if isinstance(x, ast.Compare) and isinstance(x.ops[0], (ast.In, ast.NotIn)) and norm(x.comparators[0]) in prot_names), None)
+                        cmp_ = next((x for x in ast.walk(rw(t.test)) if isinstance(x, ast.Compare) and isinstance(x.ops[0], (ast.In, ast.NotIn)) and norm(x.comparators[0]) in prot_names), None)
                         lhs = norm(cmp_.left) if cmp_ is not None else ""
                         base = lhs.rsplit(".bound_variable", 1)[0]
                         src = base
@@ -199,9 +211,25 @@ def check(ctx) -> None:
                 # a statement that carries assertions is kept as well: its assertions go with it
                 def no_assertions(lit):
                     _k, e, pol = lit
+                    if isinstance(e, ast.Call) and norm(e.func) == "bool" and len(e.args) == 1:
+                        e = e.args[0]
                     return (not pol) and isinstance(e, ast.Attribute) and e.attr == "assertions"
 
-                pc = unguarded_path(cfg, targets, no_assertions)
+                pc = unguarded_path(cfg, targets, no_assertions, rewrite=rw)
+                # ... and so is a statement that uses a protected variable: it may change the state a later assertion observes
+                def not_a_user(lit, prot_names=prot_names):
+                    _k, e, pol = lit
+                    if isinstance(e, ast.Call) and isinstance(e.func, ast.Attribute) and e.func.attr == "isdisjoint" and len(e.args) == 1:
+                        a, b = norm(e.func.value), norm(e.args[0])
+                        return pol and ((a.endswith(".used_variables()") and b in prot_names) or (b.endswith(".used_variables()") and a in prot_names))
+                    if isinstance(e, ast.BinOp) and isinstance(e.op, ast.BitAnd):
+                        a, b = norm(e.left), norm(e.right)
+                        return (not pol) and ((a.endswith(".used_variables()") and b in prot_names) or (b.endswith(".used_variables()") and a in prot_names))
+                    return False
+
+                pu = unguarded_path(cfg, targets, not_a_user, rewrite=rw)
+                ctx.paths += 1
+                ctx.check("C22.protected", st, pu is None, f"{cls}: `{norm(r)[:80]}` can remove a statement that uses an assertion-protected variable: a coverage-neutral `var_0.add(2)` is removed although the kept `var_1 = var_0.size(); assert var_1 == 3` observes the state it builds - the exported test fails", what=f"{cls}: statements that use a protected variable are skipped", path=cfg.describe_path(pu) if pu else None, stmt=norm(st)[:60] + " [user]")
                 ctx.paths += 1
                 ctx.check("C22.protected", st, pc is None, f"{cls}: `{norm(r)[:80]}` can remove a statement that has assertions attached (no skip under `<statement>.assertions`): a call without a bound variable, e.g. `var_0.toggle()`, carries the assertions on var_0 observed after it; when it is coverage-neutral it is removed together with these oracles, and an earlier assertion may be left describing a state that is no longer reached", what=f"{cls}: statements with assertions are skipped", path=cfg.describe_path(pc) if pc else None, stmt=norm(st)[:60] + " [carrier]")
                 ctx.check("C22.protected", st, ok, f"{cls}: `{norm(r)[:80]}` can remove a statement whose variable is asserted on (no skip of get_assertion_protected_variables({norm(r.func.value)}) for the statement at the removed index)", what=f"{cls}: protected variables skipped", path=cfg.describe_path(p) if p else [])
